@@ -112,4 +112,81 @@ def lineRule : List Al → List Str → Str → List Str
   | .delete _ :: r, as, who => lineRule r as.tail who
   | .insert _ :: r, as, who => who :: lineRule r as who
 
+/-! ## texts whose last line has no final newline (agent B15)
+
+  `compute_diffs` compares lines WITH their terminator: the last line `X` of a file without final
+  newline and a line `X\n` on the other side are different lines for the line diff.
+  * Both contents end without newline and share their last line: equal lines, one `Equal` segment.
+  * The CURRENT content's last line `X` (no terminator) is a line `X\n` of the changed hunk's previous
+    side — the lines below it were deleted: after /repo fix "a line that becomes the last line of a file
+    without a final newline keeps its attribution" (`process_changed_lines`) the hunk is split around
+    it: `Equal X`, `Delete "\n"`.
+  * The PREVIOUS content's last line `X` (no terminator) reappears as `X\n` — something was appended
+    after it: NOT matched at line level; the changed hunk goes through the token diff (tests/ of /repo
+    pin that the appender may win such a line, "how git works": git re-adds it).  `segsE` writes the
+    idealised `Equal X`, `Insert "\n"` for it, and `eofPlain` excludes the shape from every claim.
+  `oNl` / `nNl` say whether the previous / current content ends with a newline.  With both flags
+  `true` everything below is `lineStep` (`Props/Bridge.lean: lineStepE_tt`). -/
+
+/-- the text of the lines `bs`; with `nl = false` the last line has no terminating newline -/
+def textE (nl : Bool) (bs : List Text) : Text := if nl then textOf bs else (textOf bs).dropLast
+
+/-- a last line without final newline exists as a line only if it is not empty -/
+def lastOk (nl : Bool) (bs : List Text) : Bool := nl || bs.getLast? != some []
+
+/-- the line-granular segments of an alignment between texts that may lack the final newline -/
+def segsE (oNl nNl : Bool) : List Al → List Seg
+  | [] => []
+  | .keep b :: r =>
+    let lo := !oNl && (oldBodies r).isEmpty      -- last previous line, no terminator there
+    let ln := !nNl && (newBodies r).isEmpty      -- last current line, no terminator there
+    (if lo = ln then [⟨.equal, if lo then b else line b⟩]
+     else if lo then [⟨.equal, b⟩, ⟨.insert, [10]⟩]
+     else [⟨.equal, b⟩, ⟨.delete, [10]⟩]) ++ segsE oNl nNl r
+  | .delete b :: r => ⟨.delete, if !oNl && (oldBodies r).isEmpty then b else line b⟩ :: segsE oNl nNl r
+  | .insert b :: r => ⟨.insert, if !nNl && (newBodies r).isEmpty then b else line b⟩ :: segsE oNl nNl r
+
+/-- **the checkpoint step on texts that may lack the final newline** -/
+def lineStepE (oNl nNl : Bool) (al : List Al) (prevAuthors : List Str) (who : Str) (ts ts0 : Nat)
+    (subst : List (Nat × Nat)) : Except Err (List Str) :=
+  let old := textE oNl (oldBodies al)
+  let new := textE nNl (newBodies al)
+  let priors := lineAttrsToAttrs (priorLines 1 prevAuthors) old ts0
+  let filled := fillUnattributed old priors human (ts - 1)
+  match update (segsE oNl nNl al) subst [] filled who ts with
+  | .error e => .error e
+  | .ok out =>
+    match toLineAttrs out new with
+    | .error e => .error e
+    | .ok R => .ok (lineAuthors R (newBodies al).length)
+
+/-- the substantive range the segment contract demands for a last inserted line without newline
+    (an insertion with non-whitespace content is substantive) -/
+def lastNewItem : List Al → Option Al
+  | [] => none
+  | a :: r =>
+    match lastNewItem r with
+    | some x => some x
+    | none => (match a with | .delete _ => none | _ => some a)
+
+def tailSubst (nNl : Bool) (al : List Al) : List (Nat × Nat) :=
+  match lastNewItem al with
+  | some (.insert b) =>
+    if !nNl && !allWs b then
+      let n := (textE nNl (newBodies al)).length
+      [(n - b.length, n)]
+    else []
+  | _ => []
+
+/-- where the line rule is claimed: not (a kept last line of a previous content without final
+    newline that GAINS a terminator — text was appended after it; not matched by the line diff, see
+    above), not (an inserted whitespace-only last line without newline — whitespace without newline
+    inherits) -/
+def eofPlain (oNl nNl : Bool) : List Al → Bool
+  | [] => true
+  | .keep _ :: r =>
+    !((!oNl && (oldBodies r).isEmpty) && !(!nNl && (newBodies r).isEmpty)) && eofPlain oNl nNl r
+  | .delete _ :: r => eofPlain oNl nNl r
+  | .insert b :: r => !((!nNl && (newBodies r).isEmpty) && allWs b) && eofPlain oNl nNl r
+
 end GitAi.LineStep
